@@ -12,6 +12,13 @@ from qcase import FIELDS, show_val
 PYOPS = {'==': operator.eq, '!=': operator.ne, '<': operator.lt, '<=': operator.le, '>': operator.gt, '>=': operator.ge}
 
 
+class Boom(Exception):
+    pass
+
+
+BIG = {'calls': 0, 'raise_at': None}
+
+
 @symbol
 @dataclass(eq=False)
 class P:
@@ -26,6 +33,10 @@ class P:
     idx: int = -1
 
     def big(self):
+        # a user predicate that can be told to raise at its j-th call (C04: evaluations aborted by an exception from user code)
+        BIG['calls'] += 1
+        if BIG['raise_at'] is not None and BIG['calls'] == BIG['raise_at']:
+            raise Boom()
         return self.a >= 2
 
     def __repr__(self):
@@ -103,8 +114,12 @@ class Builder:
     def __init__(self, case, objs):
         self.case, self.objs = case, objs
         self.vars, self.flats, self.concats = {}, {}, {}
+        self.memo = {} if case.get('share_terms') else None        # one expression OBJECT per distinct term (shared by the pool)
         for k, d in case['doms']:
-            self.vars[k] = let(P, domain=[objs[i] for i in d], name=f'v{k}')
+            self.vars[k] = let(P, domain=self.domain_of(k, [objs[i] for i in d]), name=f'v{k}')
+
+    def domain_of(self, k, items):
+        return items
 
     def term(self, t):
         k = t[0]
@@ -113,13 +128,18 @@ class Builder:
         if k == 'var':
             return self.vars[t[1]]
         if k == 'map':
+            key = json.dumps(t)
+            if self.memo is not None and key in self.memo:
+                return self.memo[key]
             base = self.term(t[2])
             if t[1][0] == 'i':
-                return base[t[1][1]]
-            name = FIELDS[t[1][1]]
-            if name.endswith('()'):
-                return getattr(base, name[:-2])()
-            return getattr(base, name)
+                r = base[t[1][1]]
+            else:
+                name = FIELDS[t[1][1]]
+                r = getattr(base, name[:-2])() if name.endswith('()') else getattr(base, name)
+            if self.memo is not None:
+                self.memo[key] = r
+            return r
         if k == 'flat':
             if t[1] not in self.flats:
                 self.flats[t[1]] = flatten(self.term(t[2]))
